@@ -75,6 +75,9 @@ pub enum Case {
     Collector { max: u8, timeout_zero: bool, ops: Vec<COp> },
     Helpers { op: u8, n: u16, interval: u8, max_conc: u8, fail_at: Vec<u16> },
     BlobStore { threads: u8, lens: Vec<u8>, batch: u8, yields: u8 },
+    /// submit one task, wait for it, pause a generated moment, repeat: every submit meets an
+    /// executor that has gone idle (parked / sleeping workers)
+    PingPong { workers: u8, rounds: u16, pauses: Vec<u8> },
 }
 
 // ---------------------------------------------------------------------------------------
@@ -519,6 +522,86 @@ fn exec_once(workers: usize, cap: usize, threads: u8, api: u8, plan: &[PStep], n
     obs.started = sh.started_v();
     obs.finished = sh.finished_v();
     Some(obs)
+}
+
+/// A task accepted by an idle executor must run although nothing else is ever submitted.  "Lost"
+/// is decided only after 8 s without the task having started while it is still counted as
+/// queued (the supervisor re-runs a failing case in a fresh worker before reporting it).
+fn run_pingpong(ctx: &mut Ctx, workers: u8, rounds: u16, pauses: &[u8]) {
+    let Some(rt) = build_rt(2) else {
+        ctx.skip("cannot build a tokio runtime");
+        return;
+    };
+    let workers = workers.clamp(1, 4) as usize;
+    let pauses: Vec<u8> = if pauses.is_empty() { vec![3] } else { pauses.to_vec() };
+    let out = rt.block_on(async move {
+        let exec = match WorkStealingExecutor::new(workers, 64) {
+            Ok(e) => e,
+            Err(e) => return Err(format!("{e}")),
+        };
+        let done = Arc::new(AtomicU64::new(0));
+        let mut accepted = 0u64;
+        let mut lost: Option<(u16, usize, bool)> = None;
+        'rounds: for i in 0..rounds {
+            let p = pauses[i as usize % pauses.len()] as u32;
+            for _ in 0..p * 60 {
+                std::hint::spin_loop();
+            }
+            if p % 4 == 0 {
+                tokio::task::yield_now().await;
+            }
+            if p % 16 == 5 {
+                tokio::time::sleep(Duration::from_micros(300)).await;
+            }
+            let d = done.clone();
+            if exec
+                .submit_closure(move || {
+                    Box::pin(async move {
+                        d.fetch_add(1, SeqCst);
+                        Ok(())
+                    }) as BoxFut<ZResult<()>>
+                })
+                .is_err()
+            {
+                continue;
+            }
+            accepted += 1;
+            let t0 = std::time::Instant::now();
+            loop {
+                if done.load(SeqCst) >= accepted {
+                    break;
+                }
+                let el = t0.elapsed();
+                if el > Duration::from_secs(8) {
+                    lost = Some((i, exec.total_queued(), exec.is_idle()));
+                    break 'rounds;
+                }
+                if el < Duration::from_micros(200) {
+                    tokio::task::yield_now().await;
+                } else {
+                    tokio::time::sleep(Duration::from_millis(1)).await;
+                }
+            }
+        }
+        if lost.is_none() {
+            let _ = exec.shutdown().await;
+        }
+        Ok((accepted, lost))
+    });
+    rt.shutdown_background();
+    match out {
+        Ok((accepted, lost)) => {
+            ctx.out.checks += accepted;
+            if accepted >= 100 {
+                ctx.nontrivial();
+            }
+            ctx.label(format!("pingpong_workers_{workers}"));
+            if let Some((round, queued, idle)) = lost {
+                ctx.fail("exactly_once", "mismatch", "lost_after_idle", format!("task #{round} was accepted by submit() on an idle executor ({workers} workers) and had not started 8 s later; total_queued() = {queued}, is_idle() = {idle}"));
+            }
+        }
+        Err(e) => ctx.fail("new", "err", "", format!("WorkStealingExecutor::new({workers},64) failed: {e}")),
+    }
 }
 
 fn run_exec(ctx: &mut Ctx, workers: u8, cap: u16, threads: u8, api: u8, steps: &[Step]) {
@@ -1275,12 +1358,15 @@ fn run_pipe_stream(ctx: &mut Ctx, stages: u8, buffer: u8, in_cap: u8, threads: u
     // the first item (in input order) at which some stage fails or times out
     let first_bad: Option<u32> = fsets.iter().chain(hsets.iter()).flat_map(|s| s.iter().copied()).min();
     let (fs2, hs2) = (fsets.clone(), hsets.clone());
+    let second: Arc<Mutex<Option<Result<Vec<It>, String>>>> = Arc::new(Mutex::new(None));
     let r = try_call(|| {
         confirm(|scale| {
             let rt = build_rt(threads)?;
             let sh = Shared::new(ns * n.max(1));
             let sh2 = sh.clone();
             let (fsets, hsets) = (fs2.clone(), hs2.clone());
+            *second.lock().unwrap() = None;
+            let second2 = second.clone();
             let out: (Option<Result<(), ()>>, Option<Vec<It>>) = rt.block_on(async move {
                 let sh = sh2;
                 let p = Pipeline::new(pipe_cfg(buffer as usize, any_hang, false));
@@ -1321,10 +1407,41 @@ fn run_pipe_stream(ctx: &mut Ctx, stages: u8, buffer: u8, in_cap: u8, threads: u
                 }
                 let outv = drive(consumer, &sh.progress, scale).await.and_then(|r| r.ok());
                 producer.abort();
+                // the same Pipeline object serves a second, healthy stream afterwards (whatever
+                // the first one did: completed, failed, timed out): 6 items through one stage
+                if outv.is_some() {
+                    let st2: Vec<Box<dyn PipelineStage<It, It>>> = vec![Box::new(MapStage::new("again".to_string(), |it: It| -> ZResult<It> { Ok((it.0, stage_fn(7, it.1))) }))];
+                    let (tx2, rx2) = tokio::sync::mpsc::channel::<It>(8);
+                    let (otx2, mut orx2) = tokio::sync::mpsc::channel::<It>(8);
+                    let prod2 = tokio::spawn(async move {
+                        for i in 0..6u32 {
+                            if tx2.send((i, input_val(i))).await.is_err() {
+                                break;
+                            }
+                        }
+                    });
+                    let shc2 = sh.clone();
+                    let cons2 = tokio::spawn(async move {
+                        let mut v = vec![];
+                        while let Some(x) = orx2.recv().await {
+                            v.push(x);
+                            shc2.tick();
+                        }
+                        v
+                    });
+                    let r2 = drive(p.execute_stream(st2, rx2, otx2), &sh.progress, scale).await;
+                    let v2 = if r2.is_some() { drive(cons2, &sh.progress, scale).await.and_then(|r| r.ok()) } else { cons2.abort(); None };
+                    prod2.abort();
+                    *second2.lock().unwrap() = Some(match (r2.map(flat), v2) {
+                        (Some(Ok(())), Some(v)) => Ok(v),
+                        (Some(Err(())), _) => Err("execute_stream returned Err".to_string()),
+                        _ => Err("stayed pending with no progress".to_string()),
+                    });
+                }
                 (res.map(flat), outv)
             });
             rt.shutdown_background();
-            let stuck = out.0.is_none() || out.1.is_none();
+            let stuck = out.0.is_none() || out.1.is_none() || matches!(&*second.lock().unwrap(), Some(Err(e)) if e.starts_with("stayed"));
             Some(((out, sh.started_v()), stuck))
         })
     });
@@ -1348,6 +1465,15 @@ fn run_pipe_stream(ctx: &mut Ctx, stages: u8, buffer: u8, in_cap: u8, threads: u
     let (Some(res), Some(outv)) = (res, outv) else {
         return ctx.fail("execute_stream", "mismatch", "stuck", "execute_stream or its output channel stayed pending with no progress".to_string());
     };
+    // second use of the same pipeline object
+    match second.lock().unwrap().take() {
+        Some(Ok(v)) => {
+            let want: Vec<It> = (0..6u32).map(|i| (i, stage_fn(7, input_val(i)))).collect();
+            ctx.eq("stream_output", &format!("pipeline_reused_after_{class}"), &v, &want);
+        }
+        Some(Err(e)) => ctx.fail("execute_stream", "mismatch", &format!("pipeline_reused_after_{class}"), format!("a healthy 6-item stream on the same Pipeline object after the first stream: {e}")),
+        None => {}
+    }
     let full: Vec<It> = (0..n as u32).map(|i| (i, (0..ns as u64).fold(input_val(i), |v, s| stage_fn(s, v)))).collect();
     match first_bad {
         None => {
@@ -1837,6 +1963,13 @@ impl Prop for P {
             0,
             (prop_oneof![3 => 1u16..=8, 1 => Just(64u16)], proptest::collection::vec(qop(), 0..=qlen)).prop_map(|(cap, ops)| Case::Queue { cap, ops }),
         ));
+        // lone submits to an executor that has gone idle (lost wake-ups need thousands of attempts)
+        v.push(Plan::new(
+            "ws_exec_pingpong",
+            q(8, 1200),
+            0,
+            (1u8..=4, q(2500, 6000)..=q(5000, 20_000), proptest::collection::vec(any::<u8>(), 1..24)).prop_map(|(workers, rounds, pauses)| Case::PingPong { workers, rounds: rounds as u16, pauses }),
+        ));
         v.push(Plan::new("ws_exec_1worker", q(2400, 40_000), 0, exec_case(Just(1u8).boxed(), Just(0u8).boxed(), 8)));
         v.push(Plan::new("ws_exec_multi", q(9000, 150_000), 0, exec_case((2u8..=4).boxed(), Just(0u8).boxed(), 10)));
         v.push(Plan::new("ws_exec_mt", q(2000, 40_000), 0, exec_case(prop_oneof![1 => Just(1u8), 6 => 2u8..=4].boxed(), (2u8..=4).boxed(), 8)));
@@ -1918,6 +2051,7 @@ impl Prop for P {
         match c {
             Case::Queue { cap, ops } => run_queue(ctx, cap.max(1), &ops),
             Case::Exec { workers, cap, threads, api, steps } => run_exec(ctx, workers, cap, threads, api, &steps),
+            Case::PingPong { workers, rounds, pauses } => run_pingpong(ctx, workers, rounds, &pauses),
             Case::PoolSpawn { max_fibers, threads, batch, shutdown_first, reverse, tasks } => run_pool_spawn(ctx, max_fibers.max(1), threads, batch, shutdown_first, reverse, &tasks),
             Case::PoolMap { max_fibers, threads, for_each, n, fail_at } => run_pool_map(ctx, max_fibers.max(1), threads, for_each, n, &fail_at),
             Case::PoolReduce { max_fibers, max_workers, threads, n, fail_at } => run_pool_reduce(ctx, max_fibers.max(1), max_workers.max(1), threads, n, &fail_at),
